@@ -40,7 +40,8 @@ NT_RULE = ('case = one object (mode / StatMech +-references +-misc models / Nasa
            'verbose, rev, act, include_ZPE, del_m, per-species block) or a per-mass unit; distinct = distinct '
            'canonical JSON')
 REQUIRED_ORACLES = ['U1', 'U2', 'U3']
-ASSUMPTIONS = ['histories: `elements` is a public, mutable dict attribute; "the species\' molar mass" is that of the composition at the time of the call, however it got there (in-place edit or re-assignment)',
+ASSUMPTIONS = ['temperatures as ndarray / list / tuple (length 1, 2, 3+) are judged for Cp, H, S, G of Nasa / Nasa9 / Shomate (values, shape = shape of dimensionless x R (x T), both refuse or both answer); the inherited _ModelBase get_U / get_F of these classes with a list or tuple are reported, not judged; StatMech (documented for float T): both answering must agree, one-sided refusals are reported (SEQ_STRICT_STATMECH)',
+               'histories: `elements` is a public, mutable dict attribute; "the species\' molar mass" is that of the composition at the time of the call, however it got there (in-place edit or re-assignment)',
                'unit strings = the 16 keys documented for pmutt.constants.R; energies take them without "/K"; '
                'per-mass forms replace /mol by /g or /kg and exist only for molar units and objects with a composition',
                'relational oracle: the dimensionless twin (get_XoR / get_XoRT of the same object, same keyword '
@@ -141,7 +142,10 @@ def _required_classes():
     req += ['family:molar', 'family:per_molecule', 'family:per_mass']
     req += ['opt:' + o for o in ('none', 'P', 'x', 'S_elements', 'use_references', 'verbose', 'rev', 'act',
                                  'include_ZPE', 'del_m', 'P_block')]
-    req += ['T:scalar', 'T:array', 'T:default']
+    req += ['T:scalar', 'T:array', 'T:list', 'T:tuple', 'T:default']
+    for cl, qs in (('Nasa', EMP_OWN), ('Nasa9', EMP_OWN), ('Shomate', EMP_OWN), ('StatMech', STATMECH8)):
+        req += ['seq:%s.get_%s:%s:n%s' % (cl, q, cont, n) for q in qs for cont in ('ndarray', 'list', 'tuple')
+                for n in ('1', '2', '3+')]
     req += ['statmech:refs', 'statmech:norefs', 'statmech:misc', 'statmech:nomisc',
             'Shomate:gas', 'Shomate:surface', 'Shomate:cov', 'Nasa:gas', 'Nasa:cov', 'Nasa9:gas', 'Nasa9:cov',
             'rxn:statmech', 'rxn:empirical', 'rxn:mixed', 'rxn:ts', 'rxn:cov']
@@ -387,6 +391,11 @@ def gen_case(rng, tier, kind=None, units=None, force_opts=None, **fix):
             rng.shuffle(misc)
         spec['misc'] = misc
         spec['T'] = S.rnd(rng, 100, 3000, 2)
+        if 'T_container' in fix or rng.random() < 0.25:
+            # StatMech is documented for float T: sequences must be refused or accepted by both forms alike
+            spec['T_seq'] = {'container': fix.get('T_container') or rng.choice(SEQ_CONTAINERS),
+                             'T': sorted(S.rnd(rng, 100, 3000, 2)
+                                         for _ in range(fix.get('T_len') or rng.choice([1, 1, 2, 3])))}
         app = {'P': _P, 'verbose': lambda r: True, 'include_ZPE': lambda r: True}
         if any(m['type'] == 'PiecewiseCovEffect' for m in misc):
             app['x'] = lambda r: round(r.uniform(0.02, 1.0), 3)
@@ -423,7 +432,10 @@ def gen_case(rng, tier, kind=None, units=None, force_opts=None, **fix):
         lo, hi = S.T_range(sp)
         tk = fix.get('T_kind') or rng.choice(['scalar', 'scalar', 'array'])
         if tk == 'array':
-            spec['T'] = sorted(S.rnd(rng, lo, hi, 2) for _ in range(rng.choice([1, 2, 3, 3, 4, 5])))
+            n_T = fix.get('T_len') or rng.choice([1, 1, 2, 2, 3, 3, 4, 5])
+            spec['T'] = sorted(S.rnd(rng, lo, hi, 2) for _ in range(n_T))
+            # the temperatures arrive as ndarray, list or tuple (length 1 collapses to a float in some twins)
+            spec['T_container'] = fix.get('T_container') or rng.choice(['ndarray', 'ndarray', 'list', 'tuple'])
         else:
             edges = [lo, hi] + ([sp['T_mid']] if kind == 'nasa' else []) + \
                     ([n['T_high'] for n in sp['nasas'][:-1]] if kind == 'nasa9' else [])
@@ -464,6 +476,7 @@ def gen_case(rng, tier, kind=None, units=None, force_opts=None, **fix):
     return spec
 
 
+SEQ_CONTAINERS = ['ndarray', 'list', 'tuple']
 HIST_CLASSES = {'statmech': 'StatMech', 'nasa': 'Nasa', 'nasa9': 'Nasa9', 'shomate': 'Shomate'}
 HIST_EDITS = ['inplace_set', 'inplace_add', 'inplace_del', 'inplace_update', 'reassign']
 HIST_VIAS = ['attr', 'held_ref', 'to_dict']
@@ -603,6 +616,14 @@ def directed(tier):
         for j, dm in enumerate((None, 0, -1, 1)):
             D.append(gen_case(R('rx5%d%s%s' % (j, rc, fl)), tier, 'reaction', units='ALL', force_opts=['del_m'], rcls=rc,
                               flavor=fl, ts=True, cov=False, del_m=dm))
+    # temperatures as ndarray / list / tuple of length 1, 2, 3: every getter of the four classes
+    for k in ('nasa', 'nasa9', 'shomate', 'statmech'):
+        for cont in SEQ_CONTAINERS:
+            for n_T in (1, 2, 3):
+                kw = dict(refs=False, misc=(n_T == 2)) if k == 'statmech' else \
+                    dict(phase='G', cov=(n_T == 2), T_kind='array')
+                D.append(gen_case(R('seq%s%s%d' % (k, cont, n_T)), tier, k, force_opts=['P'] if n_T == 3 else [],
+                                  with_elements=True, el_style='int', el_type='py', T_container=cont, T_len=n_T, **kw))
     # histories on live objects (per class that has a composition)
     for k in HIST_CLASSES:
         for j, (how, via) in enumerate((('inplace_set', 'attr'), ('inplace_add', 'held_ref'), ('inplace_del', 'to_dict'),
@@ -839,19 +860,24 @@ def call_unit(g, unit):
 class Eval:
     """One (getter, option set, T) evaluation: twin once, dimensional form per unit."""
 
-    def __init__(self, subj, g, T, opts, ctx, force=()):
+    def __init__(self, subj, g, T, opts, ctx, force=(), container=None):
         import numpy as np
         self.subj, self.g, self.ctx = subj, g, ctx
         self.T = T
-        self.Tarr = None if T is None else (np.array(T, dtype=float) if isinstance(T, list) else T)
-        self.Tval = 298.15 if T is None else self.Tarr          # documented default
+        cont = container or subj.spec.get('T_container', 'ndarray')
+        if T is None or not isinstance(T, list):
+            self.Tcall = T
+        else:
+            self.Tcall = {'ndarray': lambda t: np.array(t, dtype=float), 'list': list, 'tuple': tuple}[cont](T)
+        # value used by the oracle: ndarray of the temperatures / the documented default
+        self.Tval = 298.15 if T is None else (np.array(T, dtype=float) if isinstance(T, list) else T)
         self.opts = opts
         self.kw = subj.kwargs(g, opts, force)
         self.twin_exc = None
         self.w = None
         try:
             # the default-T form is compared with the twin at the documented 298.15 K
-            self.w = _arr(subj.twin(g, self.Tval, copy.deepcopy(self.kw)))
+            self.w = _arr(subj.twin(g, 298.15 if T is None else copy.copy(self.Tcall), copy.deepcopy(self.kw)))
         except core.HarnessError:
             raise
         except Exception as e:                                   # noqa
@@ -867,7 +893,8 @@ class Eval:
     def dim(self, unit):
         """-> ('ok', array) | ('exc', exception)"""
         try:
-            return 'ok', _arr(self.subj.dim(self.g, call_unit(self.g, unit), self.Tarr, copy.deepcopy(self.kw)))
+            return 'ok', _arr(self.subj.dim(self.g, call_unit(self.g, unit), copy.copy(self.Tcall),
+                                            copy.deepcopy(self.kw)))
         except core.HarnessError:
             raise
         except Exception as e:                                   # noqa
@@ -934,8 +961,28 @@ def r_ok(c, base):
         return False
 
 
-def t_kind(T):
-    return 'default' if T is None else ('array' if isinstance(T, list) else 'scalar')
+def t_kind(T, container=None):
+    if T is None:
+        return 'default'
+    if not isinstance(T, list):
+        return 'scalar'
+    return container if container in ('list', 'tuple') else 'array'
+
+
+def inherited_energy_with_sequence(subj, g, tk):
+    """Nasa / Nasa9 / Shomate inherit get_U and get_F from _ModelBase; there a float (U/RT = 0, or a length-1
+    result collapsed to a float) is multiplied by the list / tuple itself -> TypeError while the twin answers.
+    Reported (evidence: inherited_getter_list_T), not judged."""
+    return tk in ('list', 'tuple') and subj.kind in ('nasa', 'nasa9', 'shomate') and g['name'] in ('get_U', 'get_F')
+
+
+# StatMech is documented for float T.  With a sequence, both forms answering must agree (value and shape); one
+# form refusing while the other answers is recorded (evidence: seq_T_one_sided) and becomes a violation with True
+SEQ_STRICT_STATMECH = False
+
+
+def seq_label(cls, g, container, n):
+    return 'seq:%s.%s:%s:n%s' % (cls, g['name'], container or 'ndarray', n if n < 3 else '3+')
 
 
 def apply_edit(obj, held, st):
@@ -984,7 +1031,7 @@ def run_history(spec, ctx):
     since = [dict() for _ in subs]          # per object: unit -> kinds of edit since the unit was last used
     last_edit = ['none'] * n_obj
     T, opts = base['T'], base['opts']
-    tk = t_kind(T)
+    tk = t_kind(T, base.get('T_container'))
     ctx.nontrivial()
     if n_obj > 1:
         ctx.cls('hist:%s:two_objects' % cls)
@@ -1017,6 +1064,8 @@ def run_history(spec, ctx):
             ctx.cls('hist:%s:%s' % (cls, tag))
         _, fp, _ = factor(u, comps[k])
         for g in sj.getters:
+            if inherited_energy_with_sequence(sj, g, tk):
+                continue
             ev = Eval(sj, g, T, opts, ctx)
             if ev.twin_exc is not None or not ev.finite:
                 x['twin_raised_hist'] = x.get('twin_raised_hist', 0) + 1
@@ -1062,7 +1111,7 @@ def run_case(spec, ctx):
     ctx.cls(*subj.tags)
     if subj.comp and any(unit_info(u)[0] == 'per_mass' for u in units):
         ctx.cls(*['comp:%s:%s' % (subj.cls, t) for t in spec.get('el_tags', [])])
-    tk = t_kind(T)
+    tk = t_kind(T, spec.get('T_container'))
     n_sweep = 0
     ctx.nontrivial(bool(opts) or any(unit_info(u)[0] == 'per_mass' for u in units))
     x = ctx.extra
@@ -1088,8 +1137,31 @@ def run_case(spec, ctx):
         if not subj.applicable(g):
             continue
         present = subj.present(g, opts)
+        seq = isinstance(T, list)
+        if inherited_energy_with_sequence(subj, g, tk):
+            # reported, not judged: the inherited _ModelBase energies multiply a float (U/RT = 0, or a length-1
+            # result collapsed to a float) by the list itself -> TypeError while the twin answers
+            x.setdefault('inherited_getter_list_T', {})
+            key = '%s.%s:%s' % (subj.cls, g['name'], tk)
+            x['inherited_getter_list_T'][key] = x['inherited_getter_list_T'].get(key, 0) + 1
+            continue
         ev = Eval(subj, g, T, opts, ctx)
         base_mech = {'class': subj.cls, 'getter': g['name'], 'T_kind': tk}
+        if seq:
+            ctx.cls(seq_label(subj.cls, g, spec.get('T_container'), len(T)))
+        if ev.twin_exc is not None and seq and units:
+            # sequences of temperatures: both forms refuse, or both answer
+            st, d = ev.dim(units[0])
+            if st == 'exc':
+                ctx.held('U1')
+                x.setdefault('both_refuse', {})
+                key = '%s.%s:T=%s%d:%s' % (subj.cls, g['name'], tk, len(T), type(d).__name__)
+                x['both_refuse'][key] = x['both_refuse'].get(key, 0) + 1
+            else:
+                ctx.fail('U1', dict(base_mech, unit_family=unit_info(units[0])[0], option='none', clause='U1',
+                                    exc='only_twin_refuses:' + type(ev.twin_exc).__name__),
+                         message=str(ev.twin_exc)[:300], got=d, unit=call_unit(g, units[0]), options=opts)
+            continue
         if ev.twin_exc is not None:
             x['twin_raised'] = x.get('twin_raised', 0) + 1
             x.setdefault('twin_raised_by', {})
@@ -1120,6 +1192,14 @@ def run_case(spec, ctx):
                 continue
             want = ev.want(fp)
             e = rel_err(ctx, d, want)
+            if e <= TOL1 and np.shape(d) != np.shape(want):
+                # same numbers in another shape: the result must have the shape of dimensionless x R (x T)
+                all_ok = False
+                ctx.fail('U1', dict(base_mech, unit_family=fam, option='none', clause='U1', exc='shape'),
+                         got_shape=list(np.shape(d)), want_shape=list(np.shape(want)), unit=call_unit(g, u),
+                         options=opts)
+                got[u] = (d, fp, fs)
+                continue
             if e <= TOL1:
                 ctx.held('U1')
                 if e > ctx.max_err.get('U1', 0.0):
@@ -1257,6 +1337,64 @@ def run_case(spec, ctx):
                         else '+'.join(present)
                     ctx.fail('U1', dict(base_mech, T_kind='default', unit_family=fam, option=label, clause='U1',
                                         **detail.pop('mech', {})), unit=call_unit(g, u), options=opts, **detail)
+
+    if spec.get('T_seq') and units:
+        seq_T_stage(subj, spec, units, ctx)
+
+
+def one_sided(x, subj, g, tk, n, what):
+    x.setdefault('seq_T_one_sided', {})
+    key = '%s.%s:T=%s%d:%s' % (subj.cls, g['name'], tk, n, what)
+    x['seq_T_one_sided'][key] = x['seq_T_one_sided'].get(key, 0) + 1
+
+
+def seq_T_stage(subj, spec, units, ctx):
+    """StatMech (documented for float T) with a list / tuple / ndarray of temperatures: every getter either
+    refuses in both forms or answers in both, with equal values and the shape of dimensionless x R (x T)."""
+    import numpy as np
+    ts = spec['T_seq']
+    x = ctx.extra
+    tk = t_kind(ts['T'], ts['container'])
+    for i, g in enumerate(subj.getters):
+        u = units[i % len(units)]
+        fam, fp, fs = factor(u, subj.comp)
+        ev = Eval(subj, g, ts['T'], spec['opts'], ctx, container=ts['container'])
+        ctx.cls(seq_label(subj.cls, g, ts['container'], len(ts['T'])), 'T:' + tk)
+        m = {'class': subj.cls, 'getter': g['name'], 'T_kind': tk, 'unit_family': fam, 'option': 'none',
+             'clause': 'U1'}
+        st, d = ev.dim(u)
+        if ev.twin_exc is not None:
+            if st == 'exc':
+                ctx.held('U1')
+                x.setdefault('both_refuse', {})
+                key = '%s.%s:T=%s%d:%s' % (subj.cls, g['name'], tk, len(ts['T']), type(d).__name__)
+                x['both_refuse'][key] = x['both_refuse'].get(key, 0) + 1
+            elif SEQ_STRICT_STATMECH:
+                ctx.fail('U1', dict(m, exc='only_twin_refuses:' + type(ev.twin_exc).__name__),
+                         message=str(ev.twin_exc)[:300], got=d, unit=call_unit(g, u), options=spec['opts'])
+            else:
+                one_sided(x, subj, g, tk, len(ts['T']), 'only_twin_refuses:' + type(ev.twin_exc).__name__)
+            continue
+        if st == 'exc':
+            if SEQ_STRICT_STATMECH:
+                ctx.fail('U1', dict(m, exc=type(d).__name__), message=str(d)[:300], where=core._tb_where(d),
+                         unit=call_unit(g, u), options=spec['opts'], T=ts['T'])
+            else:
+                one_sided(x, subj, g, tk, len(ts['T']), 'only_dimensional_refuses:' + type(d).__name__)
+            continue
+        if not ev.finite:
+            continue
+        want = ev.want(fp)
+        e = rel_err(ctx, d, want)
+        if e <= TOL1 and np.shape(d) == np.shape(want):
+            ctx.held('U1')
+            x['seq_T_both_answer'] = x.get('seq_T_both_answer', 0) + 1
+        elif e <= TOL1:
+            ctx.fail('U1', dict(m, exc='shape'), got_shape=list(np.shape(d)), want_shape=list(np.shape(want)),
+                     unit=call_unit(g, u), options=spec['opts'], T=ts['T'])
+        else:
+            ctx.fail('U1', m, err=e, tol=TOL1, got=d, want=want, unit=call_unit(g, u), options=spec['opts'],
+                     T=ts['T'])
 
 
 def default_T_check(subj, g, opts, u, ctx):
